@@ -2,7 +2,7 @@
    marker stood, builds inside the host exactly what it builds alone (Embed.fragment_embeds applied to the strings
    the merger handles). *)
 From Coq Require Import Ascii String ZArith Bool Arith Lia List.
-From GV Require Import Base.Util Spec.Smiles Model.Splice Proofs.Embed.
+From GV Require Import Base.Util Spec.Smiles Model.Splice Proofs.Embed Proofs.Suffix.
 Import ListNotations.
 Open Scope list_scope.
 Open Scope nat_scope.
@@ -19,12 +19,6 @@ Lemma fresh_of_check st rest : first_reused st rest = None -> fresh_labels st re
 Proof.
   intros H l Hin. pose proof (first_reused_none st rest H _ Hin) as E. cbn [tok_fresh] in E.
   destruct (find_open l (p_open st)); [discriminate | reflexivity].
-Qed.
-
-Lemma run_app ts1 : forall ts2 s, run s (ts1 ++ ts2) = match run s ts1 with Some s1 => run s1 ts2 | None => None end.
-Proof.
-  induction ts1 as [|t r IH]; intros ts2 s; cbn [app run]; [reflexivity|].
-  destruct (step s t); [apply IH | reflexivity].
 Qed.
 
 Lemma split_marker_spec sym ts pre post :
@@ -56,7 +50,7 @@ Proof.
   destruct (p_cur st) as [c|] eqn:Ecur; [|discriminate].
   destruct (p_pend st) eqn:Ep; [discriminate|].
   destruct (forallb not_dot rest) eqn:Ed; [|discriminate]. cbn [andb] in H.
-  destruct (Nat.eqb (length (p_slots st)) (length (p_atoms st))) eqn:El; [|discriminate].
+  destruct (Nat.eqb (length (p_slots st)) (length (p_atoms st))) eqn:El; [|discriminate]. cbn [andb] in H.
   apply Nat.eqb_eq in El.
   destruct (split_marker_spec _ _ _ _ Es) as [m [Hm ->]].
   exists pre, post, m, st, c, a0, rest. repeat split; try assumption; try reflexivity.
@@ -85,5 +79,46 @@ Proof.
       destruct t; try discriminate. inversion Ef; subst. cbn in E.
       destruct (find_open l (p_open st)); [discriminate | discriminate].
   - destruct (p_cur st); [destruct (p_pend st)|]; try discriminate.
-    destruct (_ && _); discriminate.
+    destruct (_ && _ && _); discriminate.
+Qed.
+
+(* the whole substitution theorem, for the strings the merger handles: where the check says SpFresh and host and
+   child are readable molecules, the string with the child in the marker's place reads as the host's molecule with
+   the marker atom replaced by the child's molecule (Suffix.splice_sem) *)
+Theorem splice_check_sem sym me child Mh Mk :
+  splice_check sym me child = SpFresh -> sem_str me = Some Mh -> sem_str child = Some Mk ->
+  exists pre am post a0 rest st c sk Me N1 N2 A2 B2,
+    lexS me = Some (pre ++ TAtom am :: post) /\ str_eqb (a_sym am) sym = true /\
+    lexS child = Some (TAtom a0 :: rest) /\
+    run pst0 pre = Some st /\ p_cur st = Some c /\
+    run pst0 (TAtom a0 :: rest) = Some sk /\
+    sem (pre ++ (TAtom a0 :: rest) ++ post) = Some Me /\
+    m_atoms Mh = p_atoms st ++ am :: A2 /\
+    m_atoms Me = p_atoms st ++ m_atoms Mk ++ A2 /\
+    m_nbrs Mh = N1 ++ (Some c :: repeat None (a_h am)) :: N2 /\ length N1 = length (p_atoms st) /\
+    m_nbrs Me = map (map (option_map (ren st sk))) N1 ++ graft_nbrs st c (m_nbrs Mk) ++ map (map (option_map (ren st sk))) N2 /\
+    m_bonds Mh = p_bonds st ++ (c, length (p_atoms st), default_bond (nth c (p_atoms st) am) am) :: B2 /\
+    m_bonds Me = p_bonds st ++ (c, length (p_atoms st), link_bond st c a0) :: map (sh_bond st) (m_bonds Mk) ++ map (ren_bond st sk) B2.
+Proof.
+  unfold splice_check, host_state, sem_str, opt_bind. intros H Hh Hk.
+  destruct (lexS me) as [tm|] eqn:Em; [|discriminate].
+  destruct (split_marker sym tm) as [[pre post]|] eqn:Es; [|discriminate].
+  destruct (run pst0 pre) as [st|] eqn:Er; [|discriminate].
+  destruct (lexS child) as [[|[a0| | | | |] rest]|] eqn:Ec; try discriminate.
+  destruct (first_reused st rest) eqn:Ef; [discriminate|].
+  destruct (p_cur st) as [c|] eqn:Ecur; [|discriminate].
+  destruct (p_pend st) eqn:Ep; [discriminate|].
+  destruct (forallb not_dot rest) eqn:Ed; [|discriminate]. cbn [andb] in H.
+  destruct (Nat.eqb (length (p_slots st)) (length (p_atoms st))) eqn:El; [|discriminate]. cbn [andb] in H.
+  destruct (post_ok post) eqn:Epost; [|discriminate].
+  destruct (split_marker_spec _ _ _ _ Es) as [m [Hm ->]].
+  destruct m as [am| | | | |]; try discriminate. cbn [is_marker] in Hm.
+  assert (Hpost : match post with [] => True | t :: _ => t = TClose end).
+  { destruct post as [|[| | | |?|] ?]; try discriminate; try exact I; reflexivity. }
+  assert (Hnd : ~ In TDot rest).
+  { intro Hin. rewrite forallb_forall in Ed. specialize (Ed _ Hin). discriminate. }
+  destruct (splice_sem pre am post a0 rest st c Mh Mk Er Ecur Ep Hk Hnd (fresh_of_check _ _ Ef) Hpost Hh)
+    as (sk & Me & N1 & N2 & A2 & B2 & H1 & H2 & H3 & H4 & H5 & H6 & H7 & H8 & H9).
+  exists pre, am, post, a0, rest, st, c, sk, Me, N1, N2, A2, B2.
+  repeat split; try assumption; reflexivity.
 Qed.
